@@ -446,8 +446,13 @@ class Transaction:
             if rdataset.rdclass != self.manager.get_class():
                 raise ValueError(f"{method} has objects of wrong RdataClass")
             if rdataset.rdtype == dns.rdatatype.SOA:
-                _, _, origin = self._origin_information()
-                if name != origin:
+                absolute, _, origin = self._origin_information()
+                # The origin may be spelled in either its absolute or its
+                # relative form, regardless of the zone's relativization.
+                if name != origin and (
+                    absolute is None
+                    or (name != absolute and name != dns.name.empty)
+                ):
                     raise ValueError(f"{method} has non-origin SOA")
             self._raise_if_not_empty(method, args)
             if not replace:
